@@ -19,7 +19,8 @@ Denotes(e) ==
   ELSE IF ~(LeafParams(e.D, e.D.top, <<>>) \subseteq PLeafParams(e.P, e.P.top, <<>>)) THEN "leaf_parameters"
   \* where the driver also netlisted the package: the SPICE text, read by position, must describe the same circuit (this checks on real
   \* netlists the reading convention PkgDenote assumes, and C01's "and therefore every netlist")
-  ELSE IF "N" \in DOMAIN e THEN NetlistDiff(e.N, e.P)
+  ELSE IF "N" \in DOMAIN e /\ NetlistDiff(e.N, e.P) # "" THEN NetlistDiff(e.N, e.P)
+  ELSE IF "N2" \in DOMAIN e /\ NetlistDiff(e.N2, e.P) # "" THEN "spectre_" \o NetlistDiff(e.N2, e.P)
   ELSE ""
 
 Clause(e) ==
